@@ -334,11 +334,12 @@ def rule_F(ck, units, control):
             cs = [g for g in cs if g.cls == f.cls]
             return bool(cs) and all(ctor_only(g, depth + 1, seen) for g in cs)
         for f in u.funcs:
-            if f.body is None or not f.cls or (f.file, f.line) in done:
+            if f.body is None or (f.file, f.line) in done:
                 continue
             if not (f.rel().startswith('amgcl/') or f.q.startswith('verif_control::')):
                 continue
             sites = []
+            psites = []
             for n in f.nodes.values():
                 if n['k'] == 'call' and n.get('m') == 'resize' and n.get('obj') is not None and len([a for a in n.get('a', []) if a is not None and a.get('k') != 'defarg']) == 2:
                     o = unwrap(n['obj'])
@@ -347,7 +348,13 @@ def rule_F(ck, units, control):
                         if 'numa_vector' in t:
                             continue          # amgcl's own resize(size, bool init) has other semantics
                         sites.append((n, o['n']))
-            if not sites:
+                    elif o is not None and o['k'] == 'ref' and f.param_index(o['d']) is not None:
+                        # an OUTPUT container parameter: the caller's vector may hold the result of an earlier call
+                        dd = f.decl(o['d'])
+                        t = u.type(dd.get('ct'))
+                        if dd.get('ref') and not dd.get('const') and 'std::vector' in t:
+                            psites.append((n, o['d']))
+            if not sites and not psites:
                 continue
             done.add((f.file, f.line))
             loc = locate(f) if f.cfg is not None else {}
@@ -370,8 +377,42 @@ def rule_F(ck, units, control):
                 ck.ob('F.resize-is-not-reset', '%s|%s' % (f.q, mname), f.where(n), ok, '' if ok else
                       '%s at %s: `%s` is a data member of an object that is reused; resize(n, v) leaves the elements that already exist untouched, so values of the previous use survive' % (
                           show(n)[:60], f.where(n), mname))
+            for n, pd_ in psites:
+                pname = f.decl(pd_)['n']
+                ok = False
+                if n['i'] in loc:
+                    b, pos = loc[n['i']]
+                    for c in f.nodes.values():
+                        if c['k'] == 'call' and c.get('m') in ('clear', 'assign') and c.get('obj') is not None and c['i'] in loc:
+                            oc = unwrap(c['obj'])
+                            if oc is not None and oc['k'] == 'ref' and oc['d'] == pd_:
+                                cb, cpos = loc[c['i']]
+                                if (cb == b and (cpos, c['i']) < (pos, n['i'])) or (cb != b and cb in dom.get(b, ())):
+                                    ok = True
+                if not ok:
+                    # every caller inside the library hands over a freshly constructed local container
+                    pi = f.param_index(pd_)
+                    sites_c = [(g, c) for g in u.funcs if g.body is not None and g is not f for c in g.calls() if c.get('fd') == f.id and len(c.get('a', [])) > pi]
+                    def fresh(g, c):
+                        a = unwrap(c['a'][pi])
+                        if a is None or a['k'] != 'ref' or g.decl(a['d']).get('k') != 'local' or g.decl(a['d']).get('ref'):
+                            return False
+                        for x in g.nodes.values():
+                            if x['i'] >= c['i']:
+                                continue
+                            if x['k'] == 'call' and x.get('obj') is not None and unwrap(x['obj'])['k'] == 'ref' and unwrap(x['obj'])['d'] == a['d'] and x.get('m') in ('resize', 'push_back', 'assign', 'insert', 'emplace_back'):
+                                return False
+                            if x['k'] == 'call' and any(unwrap(y) is not None and unwrap(y)['k'] == 'ref' and unwrap(y)['d'] == a['d'] for y in x.get('a', [])) and x is not c:
+                                return False
+                        inits = [v.get('init') for d_ in g.nodes.values() if d_['k'] == 'decl' for v in d_['v'] if v['d'] == a['d']]
+                        return all(i_ is None or (unwrap(i_) is not None and unwrap(i_)['k'] == 'ctor' and not unwrap(i_).get('a')) for i_ in inits)
+                    ok = bool(sites_c) and all(fresh(g, c) for g, c in sites_c)
+                ck.ob('F.resize-is-not-reset', '%s|param %s' % (f.q, pname), f.where(n), ok, '' if ok else
+                      '%s at %s: `%s` is an output parameter; when the caller passes a container that already holds elements (the result of an earlier call) resize(n, v) leaves them '
+                      'untouched, and this function assigns only a part of the entries afterwards' % (show(n)[:60], f.where(n), pname))
     if not found_control:
         ck.brk('F.resize-is-not-reset: the positive control verif_control::scratch::prepare (tus/controls.cpp) was not recognised - the rule is blind')
+
 
 
 def main(tier):
